@@ -6,7 +6,8 @@ from lib import coq_list as L
 
 THEOREMS = ['C03_chain_spec', 'C03_chain_assert', 'C03_lalr_filters_copy', 'C03_lalr_builds_shape',
             'C03_shape_total', 'C03_placeholders_count', 'C03_earley_resolve_is_shape_of_derivation', 'C03_cnf_roundtrip_partial', 'C03_cyk_is_shape',
-            'C03_engines_agree_partial', 'C03_find_rule_size', 'C03_maybe_untaken',
+            'C03_engines_agree_partial', 'C03_cyk_chart_sound', 'C03_cyk_chart_complete', 'C03_cyk_chart_unique',
+            'C03_cyk_returns_shape_of_derivation', 'C03_cyk_accepts_sentences', 'C03_cyk_unambiguous', 'C03_find_rule_size', 'C03_maybe_untaken',
             'C03_example_rule', 'C03_example_size', 'C03_example_derivation']
 GEN_DEPS = []
 RULE = ('(a) random compiled-rule records (0-5 symbols, terminals/rules, `_` names, filter_out, alias, template source, '
@@ -30,7 +31,9 @@ RULE = ('(a) random compiled-rule records (0-5 symbols, terminals/rules, `_` nam
         'lexer) is exported and ForestToParseTree(resolve) with the chain callbacks is evaluated on it in Coq: must equal '
         'the tree Lark(ambiguity=resolve) returns and the shape of the selected derivation; (k) CYK leg: the CNF grammar '
         'cyk.to_cnf builds is compared as a set with Shape/Cnf.to_cnf, and for every CYK parse the CNF tree handed to '
-        'revert_cnf, the reverted tree and the returned tree are compared with Cnf.revert, Cnf.cnf_of (pre-image) and shape. '
+        'revert_cnf, the reverted tree and the returned tree are compared with Cnf.revert, Cnf.cnf_of (pre-image) and shape, '
+        'and (inputs of <= 7 tokens) the whole table cyk._parse filled - rules per span as sets, keys of the tree dicts, every '
+        'recorded tree a CNF derivation of its span - with CykParse.cyk_cell. '
         'non-trivial = distinct (record, config, children) with a filter or expand1 / distinct (grammar, config, text) '
         'whose tree has >= 2 nodes')
 TRUSTED_BASE = ['hand model Shape/Chain.v of parse_tree_builder.py (tied by introspecting lark\'s callback objects and '
@@ -44,7 +47,7 @@ ASSUMPTIONS = ['terminals of the end-to-end grammars are single distinct charact
                'GrammarError at construction (colliding optional expansions, LALR conflicts) and CYK\'s rejection of '
                'empty rules exclude the engine for that grammar']
 IMPORTS = ('From LV Require Import Base.Prelude Forest.Sppf Forest.Prio Shape.Chain Shape.Spec Shape.Transform Shape.Ebnf '
-           'Shape.EarleyLeg Shape.Cnf Shape.ChainCheck.')
+           'Shape.EarleyLeg Shape.Cnf Shape.CykParse Shape.ChainCheck.')
 
 ENGINES = [('earley', 'dynamic', 'resolve'), ('earley', 'basic', 'resolve'), ('earley', 'dynamic_complete', 'resolve'),
            ('earley', 'dynamic', 'explicit'), ('lalr', 'basic', None), ('lalr', 'contextual', None), ('cyk', 'basic', None)]
@@ -268,6 +271,23 @@ def earley_forest_case(ctx, gtext, text, ka, mp, lexer):
     DEFER.add('(CaseEARLEY %s)' % term, ('earley', h))
 
 
+def table_case(ctx, nm, g, cap, gtext, text, ka):
+    """the table cyk._parse filled (all spans), accepted or not, against the model of the chart; the model
+    recomputes cells without a memo table, so only short inputs are compared"""
+    if 'table' not in cap or not (1 <= len(cap['tokens']) <= 7) or ctx.rng.random() >= 0.4:
+        return
+    toks, cells = sl.cyk_table_lit(nm, cap)
+    ctx.count('cyk-table-coq', key=(gtext, text, ka), nontrivial=len(cap['tokens']) >= 2, tokens=len(cap['tokens']),
+              cyk_accepted='error' not in cap)
+
+    def hp():
+        ctx.violation('correspondence:Shape/CykParse.cyk_cell vs cyk._parse',
+                      {'no_longer_checks': 'CYK table (rules per span as sets, keys of the tree dicts, every tree a CNF '
+                                           'derivation of its span)', 'grammar': gtext, 'text': text, 'keep_all_tokens': ka},
+                      False, 'the CYK table lark filled differs from the model')
+    DEFER.add('(CasePARSE ((%s, %s, %s) : parse_case))' % (g, toks, cells), ('parse', hp))
+
+
 def cyk_cases(ctx, cyk, gtext, texts, ka, mp):
     """CYK leg: lark's CNF grammar against Cnf.to_cnf, and every CNF parse / reverted tree against
     Cnf.revert / Cnf.cnf_of / Spec.shape"""
@@ -290,12 +310,16 @@ def cyk_cases(ctx, cyk, gtext, texts, ka, mp):
     for text in texts:
         try:
             cap = sl.cyk_capture(cyk, text)
-            tree = sl.stree_of(cap['tree'])
-        except (LarkError, sl.NotShaped):
-            continue
         except Exception:
             continue          # reported by check_text (e2e-shape) with the failing input
-        if 'cnf' not in cap or sl.stree_size(tree) > 60:
+        table_case(ctx, nm, g, cap, gtext, text, ka)
+        if 'error' in cap or 'cnf' not in cap:
+            continue
+        try:
+            tree = sl.stree_of(cap['tree'])
+        except sl.NotShaped:
+            continue
+        if sl.stree_size(tree) > 60:
             continue
         term = '((%s, %s, %s, %s, %s) : cyk_case)' % (rules, sl.B(mp), nm.tree(cap['cnf']), nm.otree(cap['reverted']),
                                                      sl.stree_lit(tree))
@@ -437,7 +461,7 @@ def correspond(ctx):
     rng = ctx.rng
     DEFER.__init__()
     if ctx.thorough():
-        DEFER.budget = {'cb': 2400, 'e2e': 700, 'earley': 700, 'cyk': 700, 'cnfg': 200, 'frs': 800}
+        DEFER.budget = {'cb': 2400, 'e2e': 700, 'earley': 700, 'cyk': 700, 'cnfg': 200, 'frs': 800, 'parse': 500}
     wide = 3 if ctx.widen else 1
 
     # (r) fixed regression stream: helper rules must not be shared between `!` and plain rules (F18)
@@ -500,12 +524,13 @@ def correspond(ctx):
             lalr_ok += (lalr is not None and (ka, mp) == (False, True))
             if lalr is not None and rng.random() < 0.5:
                 comp_records.extend(sl.rrec_of_rule(r) for r in lalr.rules[:8])
+            negs = negative_texts(rng, G, texts)
             if ('cyk', 'basic', None) in parsers:
                 try:
-                    cyk_cases(ctx, parsers[('cyk', 'basic', None)], gtext, texts, ka, mp)
+                    cyk_cases(ctx, parsers[('cyk', 'basic', None)], gtext, texts + negs[:2], ka, mp)
                 except Exception as ex:
                     ctx.violation('harness:cyk-capture', {'grammar': gtext, 'error': repr(ex)[:300]}, False, repr(ex)[:300])
-            for text in negative_texts(rng, G, texts):
+            for text in negs:
                 check_text(ctx, G, gtext, parsers, oracle, text, ka, mp, 'e2e-near', generated=False)
             for text in texts:
                 tree = check_text(ctx, G, gtext, parsers, oracle, text, ka, mp, 'e2e')
@@ -545,7 +570,7 @@ def correspond(ctx):
     find_rule_size_stream(ctx)
 
     # (a) random rule records against lark's callback objects ---------------------------------------
-    recs = [sl.random_record(rng, True) for _ in range(ctx.scale(170, 450) * wide)]
+    recs = [sl.random_record(rng, True) for _ in range(ctx.scale(140, 450) * wide)]
     callback_cases(ctx, recs, 'callback-random', True)
 
     # (b) compiled rules of those grammars against the callback objects --------------------------------
@@ -554,7 +579,7 @@ def correspond(ctx):
         uniq[json.dumps(r, sort_keys=True)] = r
     recs = list(uniq.values())
     rng.shuffle(recs)
-    callback_cases(ctx, recs[:ctx.scale(100, 300)], 'callback-compiled', False)
+    callback_cases(ctx, recs[:ctx.scale(80, 300)], 'callback-compiled', False)
     DEFER.run(ctx, 'c03', 'c03_check')
     # (x) regression F44 (fixed in /repo): CYK's to_cnf lost unit-skip rules depending on the hash seed
     # (UnitSkipRule.__eq__ ignored lhs/rhs); the witness runs in fresh interpreters over hash seeds 0..11
